@@ -215,7 +215,7 @@ func (s *Sink) Emit(e Ev) {
 		s.open()
 	}
 	op := str(e["op"])
-	if strings.HasSuffix(op, ".set") {
+	if strings.HasSuffix(op, ".set") || strings.HasSuffix(op, ".univ") {
 		if _, ok := s.sets[op]; !ok {
 			s.setOrder = append(s.setOrder, op)
 		}
